@@ -12,8 +12,22 @@ impl Format for Literal {
         _formatter: &mut Formatter,
     ) -> Result<(), FormatterError> {
         match self {
-            Self::String(lit_string) => write!(formatted_code, "\"{}\"", lit_string.parsed)?,
-            Self::Char(lit_char) => write!(formatted_code, "\'{}\'", lit_char.parsed)?,
+            // `parsed` holds the unescaped value: printing it would turn `"\t"` into a raw tab and
+            // `"\""` into `"""`. A literal backed by source code is printed as written.
+            Self::String(lit_string) => {
+                if lit_string.span.is_empty() {
+                    write!(formatted_code, "\"{}\"", lit_string.parsed)?
+                } else {
+                    write!(formatted_code, "{}", lit_string.span.as_str())?
+                }
+            }
+            Self::Char(lit_char) => {
+                if lit_char.span.is_empty() {
+                    write!(formatted_code, "\'{}\'", lit_char.parsed)?
+                } else {
+                    write!(formatted_code, "{}", lit_char.span.as_str())?
+                }
+            }
             Self::Int(lit_int) => {
                 // It is tricky to support formatting of `LitInt` for an arbitrary `LitInt`
                 // that is potentially not backed by source code, but constructed in-memory.
